@@ -39,6 +39,7 @@ class Env:
         self.g = g
         self.seed = seed
         self.rng = random.Random(seed)
+        self.memo = {}          # argument objects of the caller, the same for both executions
 
     def reset(self):
         self.rng = random.Random(self.seed)
